@@ -5,6 +5,8 @@
 -/
 import Alpaqa.Proofs.C16Ids
 
+set_option linter.unusedSimpArgs false
+
 namespace Alpaqa.Proofs.C16
 open Alpaqa.Gen.C16 Alpaqa.C16
 
@@ -496,5 +498,108 @@ theorem invS_moveRealloc {s : State} (h : InvS s) {i j b : Nat} {wi wj : Wrapper
       ⟨(s.blk b).alloc, (s.blk b).size, false, none, (s.blk b).owner, some a⟩ rfl rfl
       ⟨a, rfl, by rw [hfree rfl]; exact q6.symm⟩
     exact inv_ghost hT2 rfl rfl rfl rfl rfl rfl
+
+/-- Any metadata update (`size`, `alloc`, vtable) of a wrapper whose `self` is null. -/
+theorem invS_modW_empty {s : State} (h : InvS s) {i : Nat} {w : Wrapper} (hw : s.wr i = some w)
+    (hs : w.self = none) (f : Wrapper → Wrapper)
+    (hf : (f w).self = none ∧ (f w).bufObj = w.bufObj) : InvS (modW s i f) := by
+  simp only [modW, hw]
+  have hb := (h.wok i w hw).1 hs
+  apply inv_setSlot h
+  · exact ⟨fun _ => by rw [hf.2]; exact hb, by simp [hf.1], by simp [hf.1], by simp [hf.1]⟩
+  · intro b hb' ho; have := owner_points h hw hb' ho; rw [hs] at this; cases this
+
+theorem modW_wr {s : State} {i : Nat} {w : Wrapper} (hw : s.wr i = some w) (f : Wrapper → Wrapper) :
+    (modW s i f).wr = upd s.wr i (some (f w)) := by simp [modW, hw]
+
+/-- `allocate` does not touch any object. -/
+theorem objAt_wAllocate {s : State} (h : InvS s) (i sz : Nat) (l : Loc) :
+    objAt (wAllocate s i sz) l = objAt s l := by
+  have hn : (s.blk s.nblk).obj = none := h.deadEmpty _ (h.fresh _ (Nat.le_refl _))
+  unfold wAllocate
+  split
+  · exact objAt_modW (by intro w; rfl) l
+  · simp only []
+    rw [objAt_modW (by intro w; rfl) l]
+    cases l with
+    | buf j => rfl
+    | blk b =>
+      simp only [objAt, heapAlloc, emit, upd]
+      by_cases e : b = s.nblk
+      · subst e; simp [hn]
+      · simp [e]
+    | env k => rfl
+
+/-- `do_copy_assign` into an empty-handed wrapper (incl. the branch where the payload's copy
+    constructor throws and the guard returns the storage). -/
+theorem invS_doCopyAssign {s : State} (h : InvS s) {i k : Nat} {wi wk : Wrapper}
+    (hi : s.wr i = some wi) (hsi : wi.self = none) (hk : s.wr k = some wk) (hik : i ≠ k)
+    (c thr : Bool) : InvS (Alpaqa.C16.doCopyAssign s c i k thr).1 := by
+  have hki : k ≠ i := fun e => hik e.symm
+  have kk := h.wok k wk hk
+  -- the allocator propagation step
+  have hA : ∃ s0 wi0, (if (c && s.cfg.pocca) = true then
+        modW s i fun w => { w with alloc := (getW s k).alloc } else s) = s0 ∧ InvS s0 ∧
+      s0.wr i = some wi0 ∧ wi0.self = none ∧ s0.wr k = some wk ∧ s0.blk = s.blk ∧
+      s0.env = s.env ∧ s0.cfg = s.cfg ∧ s0.nblk = s.nblk := by
+    split
+    · refine ⟨_, { wi with alloc := (getW s k).alloc }, rfl,
+        invS_modW_empty h hi hsi _ ⟨hsi, rfl⟩, ?_, hsi, ?_, ?_, ?_, ?_, ?_⟩
+      · rw [modW_wr hi]; simp
+      · rw [modW_wr hi, upd_ne _ _ hki]; exact hk
+      · exact (modW_fields s i _).2.2.2.2.1
+      · exact (modW_fields s i _).2.2.2.2.2.2
+      · exact (modW_fields s i _).2.2.2.2.2.1
+      · exact (modW_fields s i _).2.2.2.1
+    · exact ⟨s, wi, rfl, h, hi, hsi, hk, rfl, rfl, rfl, rfl⟩
+  obtain ⟨s0, wi0, e0, h0, hi0, hsi0, hk0, eb, ee, ec, en⟩ := hA
+  unfold Alpaqa.C16.doCopyAssign
+  simp only [getW, hk, Option.getD_some] at e0 ⊢
+  rw [e0]
+  cases hsk : wk.self with
+  | none => simpa [operatorBool] using h0
+  | some p =>
+    simp only [operatorBool, Option.isSome_some, Bool.not_true, Bool.false_eq_true, ite_false]
+    by_cases ho : ownsReferencedObject wk.size = true
+    · simp only [ho, Bool.not_true, Bool.false_eq_true, ite_false]
+      cases thr with
+      | true => simpa using (invS_allocThrow h0 hi0 hsi0 wk.size).1
+      | false =>
+        simp only [Bool.false_eq_true, ite_false]
+        have hself := wAllocate_self hi0 wk.size
+        simp only [getW] at hself
+        rw [hself]
+        -- the source object
+        have hsrc : ∃ o, objAt s0 p = some o := by
+          cases p with
+          | buf j =>
+            obtain ⟨e', q2, _, _⟩ := kk.2.1 j hsk
+            subst e'
+            obtain ⟨o, ho'⟩ := Option.isSome_iff_exists.mp q2
+            exact ⟨o, by simp [objAt, hk0, ho']⟩
+          | blk b =>
+            obtain ⟨_, _, _, _, _, _, q7⟩ := kk.2.2.1 b hsk
+            obtain ⟨o, ho'⟩ := Option.isSome_iff_exists.mp q7
+            exact ⟨o, by simp [objAt, eb, ho']⟩
+          | env e =>
+            have := (kk.2.2.2 e hsk).2.1; rw [ho] at this; cases this
+        obtain ⟨o, hobj⟩ := hsrc
+        simp only [copyConstruct, objAt_wAllocate h0, hobj]
+        exact invS_fill h0 hi0 hsi0 wk.size ho _ _ _
+    · have ho' : ownsReferencedObject wk.size = false := by simpa using ho
+      simp only [ho', Bool.not_false, ite_true]
+      cases p with
+      | buf j => have := (kk.2.1 j hsk).2.2.1; rw [ho'] at this; cases this
+      | blk b => have := (kk.2.2.1 b hsk).2.1; rw [ho'] at this; cases this
+      | env e =>
+        obtain ⟨_, _, q3⟩ := kk.2.2.2 e hsk
+        have hb0 := (h0.wok i wi0 hi0).1 hsi0
+        simp only [modW, hi0]
+        apply inv_setSlot h0
+        · refine ⟨by simp, by simp, by simp, ?_⟩
+          intro e' he'; simp at he'; subst he'
+          exact ⟨hb0, ho', by rw [ee]; exact q3⟩
+        · intro b hb' hob
+          have := owner_points h0 hi0 hb' hob; rw [hsi0] at this; cases this
 
 end Alpaqa.Proofs.C16
